@@ -47,12 +47,15 @@ def gen_graph(rng, rules, weighted=False):
     return shape, len(edges)
 
 
-def gen_rec(rng, allow_deep=True, deep_only=False):
+KINDS_BASIC = ['generic', 'generic', 'generic', 'counter', 'shortest', 'negation', 'multiset']
+
+
+def gen_rec(rng, allow_deep=True, deep_only=False, kinds=None):
     """-> program dict with extra keys: names (recursive candidates), ann, depth,
     iterative, kind, distinct."""
     rules = []
-    kind = rng.choice(['generic', 'generic', 'generic', 'counter', 'shortest', 'negation',
-                       'multiset', 'dneg', 'looppair'])
+    kind = rng.choice(kinds or ['generic', 'generic', 'generic', 'counter', 'shortest',
+                                'negation', 'multiset', 'dneg', 'looppair'])
     labels = {'kind:' + kind}
     weighted = kind == 'shortest'
     shape, ne = gen_graph(rng, rules, weighted)
